@@ -408,7 +408,11 @@ func (c workCfg) stepBound() int {
 	return sum
 }
 
-func runWork(c workCfg, st vsync.Strategy) *vsync.Outcome {
+func runWork(c workCfg, st vsync.Strategy) *vsync.Outcome { return runWorkMode(c, st, false) }
+
+// runWorkMode: fine = every operation of the shim is a scheduling point (a thread can be pre-empted inside a
+// critical section, between any two synchronisation operations); used with the direct oracles only.
+func runWorkMode(c workCfg, st vsync.Strategy, fine bool) *vsync.Outcome {
 	w := &parv.Work{}
 	for _, i := range c.inits {
 		w.Add(i) // single goroutine, before Do: not scheduled
@@ -423,7 +427,15 @@ func runWork(c workCfg, st vsync.Strategy) *vsync.Outcome {
 		vsync.Yield("fe")
 		vsync.Trace("e:" + strconv.Itoa(i))
 	}
-	return vsync.Run(false, st, c.stepBound()+1, func() {
+	limit := c.stepBound() + 1
+	if fine {
+		limit *= 10
+	}
+	mode := vsync.Coarse
+	if fine {
+		mode = vsync.FineUnlock
+	}
+	return vsync.Run(mode, st, limit, func() {
 		w.Do(c.n, f)
 		vsync.Trace("doret")
 	})
@@ -666,7 +678,7 @@ func modelExplore(req, key string) {
 	res.Count("model-explore")
 	if !strings.HasPrefix(ans, "ok ") {
 		res.Violate(common.Violation{Kind: "correspondence", Oracle: "model-explore", Input: map[string]string{"request": req}, Model: ans,
-			Key: "model-explore:" + key, Detail: "the extracted model violates its own proved invariants on an exhaustive exploration (extraction or driver fault)"})
+			Key: "model-explore:" + key, Detail: "exhaustive exploration of the extracted model (compiled against the constants regenerated from the source) finds a state violating the executable form of the property: the regenerated constants no longer satisfy what the proofs need (see the PROOF stage), or extraction / the driver is at fault"})
 	} else {
 		res.Sample(map[string]any{"model-explore": req, "answer": ans})
 	}
@@ -767,9 +779,34 @@ func mainWork() {
 		oneWork(c, out, src)
 	}
 	flushCmp()
+	// 5. the same with every shim operation a scheduling point (pre-emption inside critical sections and
+	// between Unlock and the next statement); direct oracles only
+	nFine := 1500
+	if thorough {
+		nFine = 60000
+	}
+	for i := 0; i < nFine && !enough(); i++ {
+		c := randWorkCfg(r, 4, 8)
+		st := &randStrat{r: r.Fork(), prio: i%2 == 0}
+		if st.prio {
+			st.changes = map[int]bool{}
+			for k := r.Intn(5); k > 0; k-- {
+				st.changes[r.Intn(200)] = true
+			}
+		}
+		out := runWorkMode(c, st, true)
+		fs := workOracles(c, out)
+		res.Case(c.String()+"#fine#"+dots(chosen(out.Decisions)), preemptions(out.Decisions) > 0)
+		res.Count("src:fine-grained")
+		for _, f := range fs {
+			violate(f.oracle, f.detail+" (fine-grained schedule: every sync operation a scheduling point)",
+				map[string]string{"prop": "C09", "cfg": c.String(), "decisions": dots(chosen(out.Decisions)), "mode": "fine", "source": "fine-grained",
+					"text": fmt.Sprintf("Work.Do(n=%d), children=%v, initial Adds=%v; fine-grained decisions %s", c.n, c.g, c.inits, dots(chosen(out.Decisions)))})
+		}
+	}
 	res.Exhaustive = false
 	_ = exhaustiveAll
-	res.Rule = fmt.Sprintf("real par.Work on the vsync scheduler (instrumented copy regenerated from the source): exhaustive DFS over all schedules with <= %d pre-emptions (cap %d runs per configuration) for n in 1..3 over %d item graphs of <= 5 nodes, incl. every Intn answer and every choice of the woken waiter; %d complete schedules drawn from the Coq model and replayed on the code; %d random / priority-based schedules for n <= 8 and random graphs of <= 24 items; every executed schedule is replayed on the extracted model (event trace + runnable set after every step); the model's own state space is explored exhaustively for the small configurations. A case is non-trivial when its schedule has a pre-emption, a park or a Signal wake-up; distinct = distinct (configuration, event trace).", bound, maxRuns, len(smallGraphs()), nModel, nRand)
+	res.Rule = fmt.Sprintf("real par.Work on the vsync scheduler (instrumented copy regenerated from the source): exhaustive DFS over all schedules with <= %d pre-emptions (cap %d runs per configuration) for n in 1..3 over %d item graphs of <= 5 nodes, incl. every Intn answer and every choice of the woken waiter; %d complete schedules drawn from the Coq model and replayed on the code; %d random / priority-based schedules for n <= 8 and random graphs of <= 24 items; every executed schedule is replayed on the extracted model (event trace + runnable set after every step); %d further random schedules at the granularity of single sync operations (direct oracles only); the model's own state space is explored exhaustively for the small configurations. A case is non-trivial when its schedule has a pre-emption, a park or a Signal wake-up; distinct = distinct (configuration, event trace).", bound, maxRuns, len(smallGraphs()), nModel, nRand, nFine)
 }
 
 func parseSched(s string) [][2]int {
@@ -911,7 +948,7 @@ func runCache(c cacheCfg, st vsync.Strategy) *vsync.Outcome {
 			}
 		}
 	}
-	return vsync.Run(true, st, c.stepBound()+1, bodies...)
+	return vsync.Run(vsync.Fine, st, c.stepBound()+1, bodies...)
 }
 
 func cacheOracles(c cacheCfg, out *vsync.Outcome) (fs []finding) {
@@ -1244,11 +1281,19 @@ func raceEvidence(what string, dur time.Duration, fallback bool) {
 	}
 	defer os.Remove(bin)
 	{
-		c := exec.Command(bin, "-what", what, "-seed", strconv.FormatUint(fl.Seed, 10), "-dur", dur.String())
-		c.Env = append(os.Environ(), "GORACE=halt_on_error=1 exitcode=66")
-		b, err := c.CombinedOutput()
-		outS := string(b)
-		res.Count("race-stress-runs")
+		run := func() (string, error) {
+			c := exec.Command(bin, "-what", what, "-seed", strconv.FormatUint(fl.Seed, 10), "-dur", dur.String())
+			c.Env = append(os.Environ(), "GORACE=halt_on_error=1 exitcode=66")
+			b, err := c.CombinedOutput()
+			res.Count("race-stress-runs")
+			return string(b), err
+		}
+		outS, err := run()
+		if strings.Contains(outS, "FAIL deadlock") {
+			// the only timing-dependent oracle (a watchdog): a miss must repeat to be reported
+			noteOnce("the stress watchdog fired once (" + strings.TrimSpace(outS) + "); re-running")
+			outS, err = run()
+		}
 		switch {
 		case strings.Contains(outS, "DATA RACE"):
 			i := strings.Index(outS, "WARNING: DATA RACE")
@@ -1290,6 +1335,14 @@ func replayInput(in map[string]string, src string) {
 		var st vsync.Strategy = &prefixStrat{prefix: decs}
 		if in["decisions"] == "" && in["schedule"] != "" {
 			st = &replayStrat{sched: parseSched(in["schedule"])}
+		}
+		if in["mode"] == "fine" {
+			out := runWorkMode(c, st, true)
+			res.Case("fine-replay", true)
+			for _, f := range workOracles(c, out) {
+				violate(f.oracle, f.detail, in)
+			}
+			return
 		}
 		oneWork(c, runWork(c, st), src)
 	} else {
@@ -1339,6 +1392,16 @@ func main() {
 			d = 180 * time.Second
 		}
 		raceEvidence(what, d, true)
+		if prop == "C09" {
+			for k, g := range smallGraphs() {
+				c := workCfg{n: 2, g: g, inits: initsFor(g, k)}
+				modelExplore(fmt.Sprintf("workexplore %d %s %s %d", c.n, c.graphStr(), dots(c.inits), 3000000), c.String())
+			}
+		} else {
+			for _, c := range smallCacheCfgs()[:6] {
+				modelExplore(fmt.Sprintf("cacheexplore %s %s %d", c.progStr(), dots(c.vals), 3000000), c.String())
+			}
+		}
 		res.Rule = "fallback: uncontrolled stress of the unmodified package under the race detector (instrumented copy unavailable)"
 		res.Write(fl.Out)
 		return
